@@ -396,3 +396,195 @@ Fixpoint ktrace (ks : kstate) (es : list event) : list obs :=
   | [] => []
   | e :: es' => let '(ks', o) := kstep ks e in o :: ktrace ks' es'
   end.
+
+(** * Handles whose Close can be held open by the script
+
+    [XDialSlow c] is [EDial c true] with a handle whose Close() parks until
+    [XCloseGo h].  In connection.go the last release closes the handle inside
+    the critical section, so while a Close is parked m.mu is held: an event
+    that needs the lock (a request that passes the ctx check, the clean-up of
+    a failed dial, an effective release) blocks and takes effect when the
+    Close returns.  The sequentialised harness plays at most one such event
+    per parked Close (further ones are ignored, on both sides), so the order
+    in which blocked goroutines get the mutex never matters.
+
+    The layer below is generic in the inner step function: it wraps [mrun]
+    (model) and [kstep] (specification) alike; the LTS itself keeps the
+    release critical section atomic. *)
+
+Inductive xevent := XE (e : event) | XDialSlow (c : nat) | XCloseGo (h : nat).
+
+Record xobs := XObs {
+  x_o : obs;
+  x_inclose : list nat;     (* handles whose Close() was entered and is parked *)
+  x_reldone : list nat }.   (* threads whose done() call returned during this event *)
+
+Definition xcanon (x : xobs) : xobs :=
+  XObs (canon (x_o x)) (sort_nat (x_inclose x)) (sort_nat (x_reldone x)).
+
+Definition xobs_eqb (a b : xobs) : bool :=
+  obs_eqb (x_o a) (x_o b) && nats_eqb (x_inclose a) (x_inclose b) && nats_eqb (x_reldone a) (x_reldone b).
+
+Definition lock_kind (e : event) : bool :=
+  match e with EReq _ _ _ | EFailGo _ | ERelease _ => true | _ => false end.
+
+Section Wrap.
+Context {S : Type}.
+Variable inner : S -> event -> S * obs.
+Variable needs_lock : S -> event -> bool.
+
+Record wst := {
+  w_s : S;
+  w_slow : list nat;                (* handles made by XDialSlow *)
+  w_closed : list nat;              (* closed handles as of the last observation *)
+  w_park : option (nat * nat);      (* handle whose Close is parked, thread that is closing it *)
+  w_used : bool;                    (* a lock-kind event was already played during this park *)
+  w_def : option event }.           (* the event that is blocked on the mutex *)
+
+Definition wmk s sl cl p u d := {| w_s := s; w_slow := sl; w_closed := cl; w_park := p; w_used := u; w_def := d |}.
+
+Definition mem (x : nat) (l : list nat) : bool := existsb (Nat.eqb x) l.
+
+Definition quiet_obs (ign : bool) (w : wst) : obs := Obs ign [] [] [] [] (w_closed w) 0%N.
+
+(** play [e] on the inner machine now; a release that closes a slow handle
+    parks inside Close (its done() does not return yet) *)
+Definition run_now (w : wst) (e : event) : wst * xobs :=
+  let '(s', o) := inner (w_s w) e in
+  let slowc := filter (fun h => negb (mem h (w_closed w)) && mem h (w_slow w)) (o_closed o) in
+  match e, slowc with
+  | ERelease i, h :: _ =>
+      (wmk s' (w_slow w) (o_closed o) (Some (h, i)) false None, XObs o [h] [])
+  | ERelease i, [] =>
+      (wmk s' (w_slow w) (o_closed o) (w_park w) (w_used w) (w_def w), XObs o [] (if o_ign o then [] else [i]))
+  | _, _ =>
+      (wmk s' (w_slow w) (o_closed o) (w_park w) (w_used w) (w_def w), XObs o [] [])
+  end.
+
+Definition xignored (w : wst) : wst * xobs := (w, XObs (quiet_obs true w) [] []).
+
+Definition xrun (w : wst) (xe : xevent) : wst * xobs :=
+  match xe with
+  | XE e =>
+      match w_park w with
+      | None => run_now w e
+      | Some (h, closer) =>
+          if lock_kind e then
+            if w_used w then xignored w
+            else
+              let w1 := wmk (w_s w) (w_slow w) (w_closed w) (w_park w) true (w_def w) in
+              if match e with ERelease i => Nat.eqb i closer | _ => false end then xignored w1
+              else if needs_lock (w_s w) e
+                   then (wmk (w_s w) (w_slow w) (w_closed w) (w_park w) true (Some e),
+                         XObs (quiet_obs false w) [] [])
+                   else run_now w1 e
+          else
+            match e, w_def w with
+            | ECancel i, Some (EReq j _ _) => if Nat.eqb i j then xignored w else run_now w e
+            | _, _ => run_now w e
+            end
+      end
+  | XDialSlow c =>
+      let '(s', o) := inner (w_s w) (EDial c true) in
+      (wmk s' (if o_ign o then w_slow w else c :: w_slow w) (o_closed o) (w_park w) (w_used w) (w_def w),
+       XObs o [] [])
+  | XCloseGo h =>
+      match w_park w with
+      | Some (h', closer) =>
+          if Nat.eqb h h' then
+            let w1 := wmk (w_s w) (w_slow w) (w_closed w) None false None in
+            match w_def w with
+            | None => (w1, XObs (quiet_obs false w) [] [closer])
+            | Some e =>
+                let '(w2, xo) := run_now w1 e in
+                (w2, XObs (x_o xo) (x_inclose xo) (closer :: x_reldone xo))
+            end
+          else xignored w
+      | None => xignored w
+      end
+  end.
+End Wrap.
+
+Definition m_needs (s : state) (e : event) : bool :=
+  match e with
+  | EReq i _ _ =>
+      match thr s i, objs s i with
+      | None, None => negb (cancelled s i)
+      | _, _ => false
+      end
+  | EFailGo c => is_failing s c
+  | ERelease i =>
+      match thr s i with
+      | Some t => match t_pc t with PRet (RConn _) => negb (t_once t) | _ => false end
+      | None => false
+      end
+  | _ => false
+  end.
+
+Definition k_needs (ks : kstate) (e : event) : bool :=
+  match e with
+  | EReq i _ _ => match k_thr ks i with None => negb (k_cancel ks i) | Some _ => false end
+  | EFailGo d => match k_d ks d with Some (_, DFail _ false) => true | _ => false end
+  | ERelease i =>
+      match k_thr ks i with
+      | Some t => match k_ret t with Some (OConn _) => negb (k_rel t) | _ => false end
+      | None => false
+      end
+  | _ => false
+  end.
+
+Definition xm_init : @wst state := wmk init [] [] None false None.
+Definition xk_init : @wst kstate := wmk kinit [] [] None false None.
+
+Definition xmrun := xrun mrun m_needs.
+Definition xkstep := xrun kstep k_needs.
+
+(** a thread is handed a connection that is already shut down *)
+Definition handed_closed (o : obs) : bool :=
+  existsb (fun ir => match snd ir with OConn h => existsb (Nat.eqb h) (o_closed o) | _ => false end) (o_rets o).
+
+Definition xtag (want got : xobs) : N :=
+  if handed_closed (x_o got) then 4%N
+  else if obs_eqb (x_o want) (x_o got) then 7%N     (* Close / done() progress not as specified *)
+  else ktag (x_o want) (x_o got).
+
+Fixpoint xcheck_from (n : nat) (w : @wst state) (wk : @wst kstate) (m_ok k_ok : bool)
+         (c : list (xevent * xobs)) : list (nat * N) :=
+  match c with
+  | [] => []
+  | (e, r) :: c' =>
+      let r' := xcanon r in
+      let '(w', rm) := xmrun w e in
+      let '(wk', rk) := xkstep wk e in
+      let rm := xcanon rm in
+      let rk := xcanon rk in
+      let bad1 := m_ok && negb (xobs_eqb r' rm) in
+      let bad2 := k_ok && negb (xobs_eqb r' rk) in
+      (if bad1 then [(n, 1%N)] else []) ++
+      (if bad2 then [(n, xtag rk r')] else []) ++
+      xcheck_from (S n) w' wk' (m_ok && negb bad1) (k_ok && negb bad2) c'
+  end.
+
+Definition xcheck_case (c : list (xevent * xobs)) : list (nat * N) :=
+  xcheck_from 0 xm_init xk_init true true c.
+
+Fixpoint xcheck_all_from (i : nat) (cs : list (list (xevent * xobs))) : list (nat * nat * N) :=
+  match cs with
+  | [] => []
+  | c :: cs' => map (fun sn => (i, fst sn, snd sn)) (xcheck_case c) ++ xcheck_all_from (S i) cs'
+  end.
+
+Definition xcheck_all (cs : list (list (xevent * xobs))) : list (nat * nat * N) :=
+  xcheck_all_from 0 cs.
+
+Fixpoint xmtrace (w : @wst state) (es : list xevent) : list xobs :=
+  match es with
+  | [] => []
+  | e :: es' => let '(w', o) := xmrun w e in xcanon o :: xmtrace w' es'
+  end.
+
+Fixpoint xktrace (w : @wst kstate) (es : list xevent) : list xobs :=
+  match es with
+  | [] => []
+  | e :: es' => let '(w', o) := xkstep w e in xcanon o :: xktrace w' es'
+  end.
